@@ -901,8 +901,7 @@ def party_arithmetic(facts, rep, P="C02", file_filter=None):
                 for ib in cone:
                     ti = zb.term(ib)
                     if (callee_name(ti) or "").endswith("::index") and len(ti["args"]) == 2 and ti["args"][1][0] != "k":
-                        ro = zfl.origins(ti["args"][0], (ib, None))
-                        if any(o[0] == "call" and o[2] in ("graphs::Graph::prf", "graphs::Node::prf") for o in ro):
+                        if _holds_prf_outputs(facts, zb, zfl, ti["args"][0], (ib, None)):
                             idxs.append(IE.build(zfl, zb, ti["args"][1]))
             if len(idxs) != 2:
                 continue
@@ -920,6 +919,34 @@ def party_arithmetic(facts, rep, P="C02", file_filter=None):
         rep.ob(P + ".D", "recursively_generate_node_shares|alpha-found", found >= 1, "difference of two indexed PRF outputs found (%d)" % found)
     rep.analysed["send_sites_with_evaluated_party_arithmetic"] = n
     rep.floor(P + ".D", "Send sites whose parties are a function of one index variable", n, 5 if file_filter is None else 1)
+
+
+def _holds_prf_outputs(facts, b, fl, op, at, depth=0):
+    """is the container made of prf() results - pushed in a loop, or collected from `keys.into_iter().map(|k| g.prf(k, ..))`"""
+    PRF_ = ("graphs::Graph::prf", "graphs::Node::prf")
+    if op[0] == "k" or depth > 5:
+        return False
+    for o in fl.origins(op, at):
+        if o[0] == "call" and o[2] in PRF_:
+            return True
+        if o[0] == "agg" and o[3] and "closure" in str(o[3]):
+            pass
+        if o[0] == "call":
+            t = b.term(o[1])
+            d = (t["f"].get("def") or "") + " " + (o[2] or "")
+            if not any(x in d for x in ("std::iter", "IntoIterator", "::collect", "::branch", "from_iter", "::map", "::into_iter")):
+                continue
+            for a in t["args"]:
+                if a[0] == "k":
+                    continue
+                ty = b.local_ty(a[1][0])
+                if "closure@" in ty:
+                    for cb in facts.closures_of(b.root or b.id):
+                        if ("closure@%s:%d:" % (cb.file, cb.line)) in ty and any(callee_name(ct) in PRF_ for _, ct in cb.calls()):
+                            return True
+                elif _holds_prf_outputs(facts, b, fl, a, (o[1], None), depth + 1):
+                    return True
+    return False
 
 
 def _ord_index(b, bb):
